@@ -789,6 +789,17 @@ def inline_single_use_temps(fn, keep=frozenset()) -> int:
                             slot = (nx, 'value')
                         elif isinstance(nx, ast.Expr) and isinstance(nx.value, (ast.Yield, ast.Await)) and isinstance(nx.value.value, ast.Name) and nx.value.value.id == t:
                             slot = (nx.value, 'value')
+                        elif isinstance(nx, ast.If):
+                            # `t = f(..)` / `if t:` -- the test of the next statement is evaluated first (and once)
+                            tst = nx.test
+                            if isinstance(tst, ast.Name) and tst.id == t:
+                                slot = (nx, 'test')
+                            elif isinstance(tst, ast.UnaryOp) and isinstance(tst.op, ast.Not) and isinstance(tst.operand, ast.Name) and tst.operand.id == t:
+                                slot = (tst, 'operand')
+                            elif isinstance(tst, ast.BoolOp) and isinstance(tst.values[0], ast.Name) and tst.values[0].id == t:
+                                slot = (tst.values, 0)
+                            elif isinstance(tst, ast.BoolOp) and isinstance(tst.values[0], ast.UnaryOp) and isinstance(tst.values[0].op, ast.Not) and isinstance(tst.values[0].operand, ast.Name) and tst.values[0].operand.id == t:
+                                slot = (tst.values[0], 'operand')
                         else:
                             call = nx.value if isinstance(nx, (ast.Expr, ast.Assign)) else None
                             if isinstance(call, ast.Await):
@@ -1434,3 +1445,90 @@ def canonical_dicts(tree: ast.AST) -> int:
     if k[0]:
         ast.fix_missing_locations(tree)
     return k[0]
+
+
+# (xxii) `t = a` directly followed by `if not t: t = b` is read as `t = a or b`; `x = []` directly followed by a `for`
+# whose whole body is `x.append(e)` (possibly under `if`s, loop variable not used elsewhere) as the list comprehension.
+
+
+def recompose(tree: ast.AST) -> int:
+    k = [0]
+
+    def same(a, b):
+        return ast.dump(a).replace('Store()', 'Load()') == ast.dump(b).replace('Store()', 'Load()')
+
+    def fix(body, fn):
+        out = []
+        i = 0
+        while i < len(body):
+            st = body[i]
+            nx = body[i + 1] if i + 1 < len(body) else None
+            if isinstance(st, ast.Assign) and len(st.targets) == 1 and isinstance(st.targets[0], (ast.Name, ast.Attribute)) and isinstance(nx, ast.If) and not nx.orelse and len(nx.body) == 1:
+                t = st.targets[0]
+                b = nx.body[0]
+                if isinstance(nx.test, ast.UnaryOp) and isinstance(nx.test.op, ast.Not) and same(nx.test.operand, t) and isinstance(b, ast.Assign) and len(b.targets) == 1 and same(b.targets[0], t) and not any(same(x, t) for x in ast.walk(b.value)):
+                    st.value = ast.copy_location(ast.BoolOp(op=ast.Or(), values=[st.value, b.value]), st.value)
+                    out.append(st)
+                    k[0] += 1
+                    i += 2
+                    continue
+            if isinstance(st, ast.Assign) and len(st.targets) == 1 and isinstance(st.targets[0], ast.Name) and isinstance(st.value, ast.List) and not st.value.elts and isinstance(nx, ast.For) and not nx.orelse and isinstance(nx.target, ast.Name):
+                x = st.targets[0].id
+                ifs = []
+                b = nx.body
+                while len(b) == 1 and isinstance(b[0], ast.If) and not b[0].orelse:
+                    ifs.append(b[0].test)
+                    b = b[0].body
+                if len(b) == 1 and isinstance(b[0], ast.Expr) and isinstance(b[0].value, ast.Call) and isinstance(b[0].value.func, ast.Attribute) and b[0].value.func.attr == 'append' and isinstance(b[0].value.func.value, ast.Name) and b[0].value.func.value.id == x and len(b[0].value.args) == 1 and not b[0].value.keywords:
+                    elt = b[0].value.args[0]
+                    lv = nx.target.id
+                    # occurrences in comprehensions that bind the same name themselves are other variables
+                    own = set()
+                    for cp in ast.walk(fn):
+                        if isinstance(cp, (ast.ListComp, ast.SetComp, ast.DictComp, ast.GeneratorExp)) and any(isinstance(n_, ast.Name) and n_.id == lv for g_ in cp.generators for n_ in ast.walk(g_.target)):
+                            own |= {id(n_) for n_ in ast.walk(cp) if isinstance(n_, ast.Name) and n_.id == lv}
+                    inside = sum(1 for n_ in ast.walk(nx) if isinstance(n_, ast.Name) and n_.id == lv and id(n_) not in own)
+                    total = sum(1 for n_ in ast.walk(fn) if isinstance(n_, ast.Name) and n_.id == lv and id(n_) not in own)
+                    uses_x = any(isinstance(n_, ast.Name) and n_.id == x for e_ in [elt, nx.iter] + ifs for n_ in ast.walk(e_))
+                    if inside == total and not uses_x:
+                        st.value = ast.copy_location(ast.ListComp(elt=elt, generators=[ast.comprehension(target=nx.target, iter=nx.iter, ifs=ifs, is_async=0)]), st.value)
+                        out.append(st)
+                        k[0] += 1
+                        i += 2
+                        continue
+            out.append(st)
+            i += 1
+        return out
+
+    def rec(n, fn):
+        if isinstance(n, (ast.FunctionDef, ast.AsyncFunctionDef)):
+            fn = n
+        for fld in ('body', 'orelse', 'finalbody'):
+            b = getattr(n, fld, None)
+            if isinstance(b, list) and b and isinstance(b[0], ast.stmt):
+                if fn is not None:
+                    setattr(n, fld, fix(b, fn))
+        for c in ast.iter_child_nodes(n):
+            rec(c, fn)
+
+    rec(tree, None)
+    if k[0]:
+        ast.fix_missing_locations(tree)
+    return k[0]
+
+
+# (xxiii) `while True:` whose first statement is `if c: break` (no else on either) is read as `while not c:`.
+
+
+def canonical_while(tree: ast.AST) -> int:
+    k = 0
+    for n in ast.walk(tree):
+        if isinstance(n, ast.While) and isinstance(n.test, ast.Constant) and n.test.value in (True, 1) and not n.orelse and len(n.body) > 1:
+            f = n.body[0]
+            if isinstance(f, ast.If) and not f.orelse and len(f.body) == 1 and isinstance(f.body[0], ast.Break):
+                n.test = ast.copy_location(ast.UnaryOp(op=ast.Not(), operand=f.test), f.test)
+                n.body = n.body[1:]
+                k += 1
+    if k:
+        ast.fix_missing_locations(tree)
+    return k
